@@ -71,8 +71,13 @@ FragNames == <<"F1", "F2", "F3">>
 
 Init == nodes = <<>> /\ phase = "build" /\ pick = [op |-> 0]
 
+\* Canonical order: operations first, then fragments in order of first reference (the
+\* harness permutes the definitions when rendering, so "defined after / before use"
+\* are both exercised); fragment names are introduced in order F1, F2, ...
+RefNames(ns) == {ns[i].name : i \in {j \in 1..Len(ns) : ns[j].k = "S"}}
+
 AddOp ==
-  /\ phase = "build" /\ CanClose(nodes) /\ NOps(nodes) < MaxOps
+  /\ phase = "build" /\ CanClose(nodes) /\ NOps(nodes) < MaxOps /\ NFrags(nodes) = 0
   /\ \E ot \in OpTypes :
         \* anonymous only if it stays the only operation; names are assigned in order
         \E anon \in (IF MaxOps = 1 THEN {TRUE, FALSE} ELSE {FALSE}) :
@@ -81,6 +86,7 @@ AddOp ==
 
 AddFrag ==
   /\ phase = "build" /\ CanClose(nodes) /\ NFrags(nodes) < MaxFrags
+  /\ FragNames[NFrags(nodes) + 1] \in RefNames(nodes)
   /\ \E c \in Conds \ {""} :
         nodes' = Append(nodes, Mk("FRAG", 0, FragNames[NFrags(nodes) + 1], "", c, <<>>, <<>>, "", ""))
   /\ UNCHANGED <<phase, pick>>
@@ -113,7 +119,8 @@ AddSpread ==
   /\ \E par \in OpenParents(nodes) :
        LET sc == ChildScope(nodes, par) IN
        \E j \in 1..MaxFrags, ds \in DirOpts :
-         nodes' = Append(nodes, Mk("S", par, FragNames[j], "", "", <<>>, ds, "", sc))
+         /\ j <= Cardinality(RefNames(nodes)) + 1
+         /\ nodes' = Append(nodes, Mk("S", par, FragNames[j], "", "", <<>>, ds, "", sc))
   /\ UNCHANGED <<phase, pick>>
 
 ------------------------------------------------------------------------------
